@@ -164,6 +164,16 @@ func cmdCheck(args []string) int {
 		}
 		cfg := &RunConfig{Unwind: unwind, MaxConcretize: 64, Workers: *workers, SolverBin: *solver, QueryTimeout: qt,
 			MaxPaths: rs.MaxPaths, Params: params, Tier: *tier, PermuteMaps: rs.Permute}
+		// a wall-clock cap per harness (quick 15 min, thorough 2 h): a path space that a changed
+		// tree makes explode ends as "inconclusive" (exit 2) instead of running for ever
+		limit := 15 * time.Minute
+		if *tier == "thorough" {
+			limit = 2 * time.Hour
+		}
+		if d, ok := params["deadline_s"]; ok {
+			limit = time.Duration(d) * time.Second
+		}
+		cfg.Deadline = time.Now().Add(limit)
 		ex := NewExplorer(ld, fn, cfg)
 		t1 := time.Now()
 		ex.Run()
